@@ -5,6 +5,7 @@
 mod composer_script;
 mod dispatch;
 mod kernels;
+mod protocol;
 mod util;
 mod widgets;
 
@@ -21,6 +22,7 @@ fn main() {
         "composer" => composer_script::run(&text),
         "widgets" => widgets::run(&text),
         "kernels" => kernels::run(&text),
+        "protocol" => protocol::run(&text),
         m => {
             eprintln!("unknown mode {m}");
             std::process::exit(2);
